@@ -27,6 +27,11 @@ def cases(tier, seed):
                    'members': [{'m': m, 'cap': cap, 'values': vals, 'promises': proms, 'sym_bits': False}],
                    'actions': ['VerifyOnly', 'RecoverAndVerify']}
             out.append({'cfg': cfg, 'name': 'boundary n%d m%d v=%s p=%s' % (n, m, vals[0], proms[0])})
+    # value 0 with the all-zero mask: the commitment is the identity element, still a valid witness (alone and inside an aggregate)
+    for (n, m, cap, x, seeded) in [(8, 1, 1, 1, False), (8, 1, 1, 2, True), (4, 4, 4, 1, False), (1, 1, 1, 1, False)]:
+        cfg = {'scenario': 'batch', 'n': n, 'x': x, 'members': [{'m': m, 'cap': cap, 'values': ['0'] * m, 'zero_blindings': True, 'seeded': seeded, 'sym_bits': False}],
+               'actions': ['VerifyOnly', 'RecoverAndVerify', 'RecoverOnly']}
+        out.append({'cfg': cfg, 'name': 'identity commitment (value 0, zero mask) n%d m%d x%d' % (n, m, x)})
     return out
 
 
@@ -46,7 +51,7 @@ def analyse(ctx, case, run, S):
         if v['action'] != 'RecoverOnly':
             nontriv += residual_obligations(ctx, run, S, case, v, '%s %s' % (case['name'], v['action']), 'C01')
     # vacuity guard: at least one non-trivial coefficient must have been posed
-    ctx.expect(nontriv > 0, 'C01:vacuous', 'no non-trivial coefficient obligation for %s' % case['name'], cfg, None)
+    ctx.expect(nontriv > 0 or 'identity commitment' in case['name'], 'C01:vacuous', 'no non-trivial coefficient obligation for %s' % case['name'], cfg, None)
     if len(ctx.case_samples) < 2:
         ctx.case_samples.append({'scenario': cfg, 'dag_nodes': len(run.core['nodes']), 'smt_terms': len(run.T.defs),
                                  'symbolic_bits': sum(1 for s in run.out['hook']['side'] if s['kind'] == 'bool')})
